@@ -308,8 +308,11 @@ def run(prop, tier, seed, t0):
         return plan.fail_build(prop, failed)
     cb = plan.dispatch_variants(bins)
     tasks = []
+    import random as _r
+    rs = _r.Random(seed * 15485863 + 3)
+    drawn = [((rs.randrange(8, 60),), 1), ((rs.randrange(97, 240),), 1), ((rs.randrange(251, 399),), 1)]
     if tier == 'quick':
-        groups = [((0, 1, 2, 3, 7), 3), ((64,), 1), ((94,), 1), ((95,), 1), ((96,), 1), ((249,), 1), ((250,), 1), ((400,), 1),
+        groups = drawn + [((0, 1, 2, 3, 7), 3), ((64,), 1), ((94,), 1), ((95,), 1), ((96,), 1), ((249,), 1), ((250,), 1), ((400,), 1),
                   ((0, 1, 2, 3, 7, 16), 2), ((5, 33), 1)]
     else:
         groups = [((0, 1, 2, 3, 7), 20)] * 8 + [((64,), 4), ((94,), 4), ((95,), 4), ((96,), 4), ((249,), 2), ((250,), 2),
